@@ -159,7 +159,11 @@ func (x *XSpec) Main() {
 		}
 		// determinism of the default schedule
 		o1 := Run(sc, nil, false).Observation()
-		if o2 := Run(sc, nil, false).Observation(); o1 != o2 {
+		if o2 := Run(sc, nil, false).Observation(); o1 != o2 && run.Violations() > 0 {
+			// state leaking from one execution into the next (a process-global cache, say) makes replays differ;
+			// with violations already reported this is part of the defect, not a harness fault
+			run.Truncated("replay of the default schedule of " + sc.Name + " differs between executions (process-global state?)")
+		} else if o1 != o2 {
 			vr.HarnessError("nondeterminism in scenario %s: the default schedule gave two observations\n%s\n%s", sc.Name, o1, o2)
 		}
 		jobs := sched.Children(root, 0, b)
@@ -203,7 +207,9 @@ func (x *XSpec) Main() {
 		// determinism of a deviating schedule: replay one child prefix twice
 		if lastPrefix != nil {
 			a, bb := Run(sc, lastPrefix, false), Run(sc, lastPrefix, false)
-			if a.Observation() != bb.Observation() || len(a.Points) != len(bb.Points) {
+			if (a.Observation() != bb.Observation() || len(a.Points) != len(bb.Points)) && run.Violations() > 0 {
+				run.Truncated("replay under a prefix differs between executions of " + sc.Name)
+			} else if a.Observation() != bb.Observation() || len(a.Points) != len(bb.Points) {
 				vr.HarnessError("nondeterminism in scenario %s under prefix %v", sc.Name, lastPrefix)
 			}
 		}
@@ -296,7 +302,7 @@ func (x *XSpec) batchMaster(deadline time.Time, workers int) {
 	wg.Wait()
 	// determinism: first and last scenario, default schedule, twice
 	for _, sc := range []*Scenario{x.Scenarios[0], x.Scenarios[n-1]} {
-		if a, b := Run(sc, nil, false).Observation(), Run(sc, nil, false).Observation(); a != b {
+		if a, b := Run(sc, nil, false).Observation(), Run(sc, nil, false).Observation(); a != b && run.Violations() == 0 {
 			vr.HarnessError("nondeterminism in scenario %s", sc.Name)
 		}
 	}
